@@ -589,12 +589,53 @@ func (r *resolver) addDataDefinition(parent HasDataDefinitions, child Definition
 	if err := parent.addDataDefinition(child); err != nil {
 		return nil, err
 	}
+	if cs, isCase := parent.(*ChoiceCase); isCase {
+		if err := indexInChoiceHolders(cs, child); err != nil {
+			return nil, err
+		}
+	}
 
 	if _, err := r.enter(child); err != nil {
 		return nil, err
 	}
 
 	return []Definition{child}, nil
+}
+
+// the nodes of a case are found by name in the node that holds the choice. That
+// index is filled when the choice is added, so a node that reaches the case later
+// (uses inside the case, augment of the case) is entered here.
+func indexInChoiceHolders(cs *ChoiceCase, child Definition) error {
+	type indexer interface {
+		HasDefinitions
+		indexDataDefinition(Definition) error
+	}
+	p := cs.Parent()
+	for p != nil {
+		if _, isAugment := p.(*Augment); isAugment {
+			// a case written directly in an augment: its holder is known once it is applied
+			return nil
+		}
+		holder, valid := p.(indexer)
+		if !valid {
+			if c, isChoice := p.(*Choice); isChoice {
+				p = c.Parent()
+				continue
+			}
+			return nil
+		}
+		if holder.Definition(child.Ident()) != child {
+			if err := holder.indexDataDefinition(child); err != nil {
+				return err
+			}
+		}
+		if c, isCase := p.(*ChoiceCase); isCase {
+			p = c.Parent()
+			continue
+		}
+		return nil
+	}
+	return nil
 }
 
 func (r *resolver) expandUses(parent HasDataDefinitions, u *Uses) ([]Definition, error) {
